@@ -415,3 +415,33 @@ def run_tlaps(module: str, timeout: int = 600) -> tuple[int, int]:
         raise Machinery(f'cannot read tlapm output for {module}:\n{p.stdout[-2000:]}')
     finally:
         shutil.rmtree(tmp, ignore_errors=True)
+
+
+def run_and_finish(run, rep) -> int:
+    """Run a property's body and finish the report with the exit-code policy of check.py (0 held / 1 VIOLATION / 2 machinery): an
+    exception raised INSIDE the tree under test is a violation, any other one a machinery failure."""
+    import traceback
+    try:
+        run(rep)
+        return rep.finish()
+    except Machinery as e:
+        print(f'MACHINERY-FAILURE property={rep.prop}: {e}', file=sys.stderr)
+        return 2
+    except Exception as e:      # noqa
+        src = os.path.realpath(os.environ.get('GEMDAT_SRC', '/repo/src'))
+        frames = traceback.extract_tb(e.__traceback__)
+        inside = [f for f in frames if os.path.realpath(f.filename).startswith(src + os.sep)]
+        if inside:
+            tb = ''.join(traceback.format_exception(type(e), e, e.__traceback__))
+            rep.violation({'kind': 'exception', 'clause': f'code-under-test-raised:{type(e).__name__}',
+                           'where': f'{inside[-1].filename}:{inside[-1].lineno}', 'traceback': tb[-3000:]})
+            if not rep.samples:
+                rep.sample({'note': 'run aborted by an exception raised in the code under test'})
+            try:
+                return rep.finish()
+            except Machinery as e2:
+                print(f'MACHINERY-FAILURE property={rep.prop}: {e2}', file=sys.stderr)
+                return 2
+        traceback.print_exc()
+        print(f'MACHINERY-FAILURE property={rep.prop}: unexpected exception in harness', file=sys.stderr)
+        return 2
